@@ -22,6 +22,10 @@ import (
 	"strings"
 
 	"goa.design/goa/v3/codegen/generator"
+	"goa.design/goa/v3/codegen/service"
+	grpccodegen "goa.design/goa/v3/grpc/codegen"
+	httpcodegen "goa.design/goa/v3/http/codegen"
+	"goa.design/goa/v3/http/codegen/openapi"
 
 	"verifharness/internal/design"
 	"verifharness/internal/lp"
@@ -61,6 +65,8 @@ func main() {
 	views := fl.Bool("views", false, "with result types and views")
 	nested := fl.Bool("nested-inline", false, "allow nested inline objects")
 	risky := fl.Bool("risky-names", false, "use one attribute name that generated code may collide with")
+	meta := fl.Bool("meta", false, "decorate the design with openapi:* / struct:* metadata (post-pass, C09)")
+	metaBoth := fl.Bool("meta-both-summaries", false, "with -meta: openapi:summary and swagger:summary on the same expressions")
 	designFile := fl.String("design", "", "design JSON")
 	out := fl.String("out", "", "output directory (module root)")
 	example := fl.Bool("example", false, "also run the example generator")
@@ -70,6 +76,9 @@ func main() {
 	switch os.Args[1] {
 	case "make":
 		d := design.Generate(lp.NewRng(*seed*1000003+uint64(*index)), design.Opts{Index: *index, Security: *security, Errors: *errs, Views: *views, NestedInline: *nested, Risky: *risky})
+		if *meta || *metaBoth {
+			design.AddMeta(d, lp.NewRng(*seed*7919+uint64(*index)+17), *metaBoth)
+		}
 		b, _ := json.Marshal(d)
 		fmt.Println(string(b))
 	case "run":
@@ -119,7 +128,20 @@ func run(d *design.Design, out string, example, twice bool) (rep report) {
 	rep.Gen = generate(out, "gen")
 	if twice && rep.Gen.Error == "" && rep.Gen.Panic == "" {
 		// the goa command removes the sub-directories of gen/ before writing (files are opened in append mode)
+		if keep := os.Getenv("VERIF_KEEP_FIRST"); keep != "" {
+			os.CopyFS(keep, os.DirFS(filepath.Join(out, "gen")))
+		}
 		cleanGen(out)
+		// a second generation in the same process, the way goa's own tests and plugins do it: the DSL is
+		// evaluated again (fresh expr.Root) and the generators' package-level caches are emptied
+		service.Services = make(service.ServicesData)
+		httpcodegen.HTTPServices = make(httpcodegen.ServicesData)
+		grpccodegen.GRPCServices = make(grpccodegen.ServicesData)
+		openapi.Definitions = make(map[string]*openapi.Schema)
+		if err := design.Run(d); err != nil {
+			rep.Gen2 = &stage{Ran: true, Error: "second evaluation: " + err.Error()}
+			return
+		}
 		s := generate(out, "gen")
 		rep.Gen2 = &s
 	}
